@@ -140,6 +140,9 @@ var c12classes = []c12class{
 	{"slice-open-end-start-past-len-variable", `{{ zq_xs[zq_i:] }}`, true, false},
 	{"range-nil-pointer", `{{range zq_nilp}}x{{end}}`, true, false},
 	{"range-two-var-no-index", `{{range k, v := zq_ch}}x{{end}}`, true, false},
+	{"range-two-var-no-index-assignment-form", `{{ zq_k := 0 }}{{ zq_v := 0 }}{{range zq_k, zq_v = zq_ch}}x{{end}}`, true, false},
+	{"slice-of-array-reached-by-value", `{{ zq_arrv.Cells[1:3] }}`, true, false},
+	{"slice-of-array-element-reached-by-value", `{{ zq_arrv.Rows[0][:1] }}`, true, false},
 	{"yield-arg-without-value", `{{yield zq_blk(q)}}`, true, false},
 	{"slot-without-pipe", `{{ trimSpace(_) }}`, true, false},
 	{"slot-without-pipe-in-variadic-tail", `{{ zq_join("-", "a", _) }}`, true, false},
@@ -193,11 +196,15 @@ func c12extra() map[string]interface{} {
 		"zq_join":     func(sep string, parts ...string) string { return strings.Join(parts, sep) },
 		"zq_cat":      func(parts ...string) string { return strings.Join(parts, "") },
 		"zq_msi":      map[string]int{"a": 1},
-		"zq_emb":      c12outer{c12hidden: c12hidden{Secret: "s"}, Pub: "p"},
-		"zq_now":      func() string { return "now" },
-		"zq_users":    map[string]c12struct{"alice": {A: "a"}},
-		"zq_cfg":      map[string]interface{}{"db": map[string]interface{}{"host": "h"}},
-		"zq_u":        uint(5), "zq_u8": uint8(9), "zq_f": 2.5,
+		"zq_arrv": struct {
+			Cells [4]int
+			Rows  [2][2]string
+		}{[4]int{1, 2, 3, 4}, [2][2]string{{"a", "b"}, {"c", "d"}}},
+		"zq_emb":   c12outer{c12hidden: c12hidden{Secret: "s"}, Pub: "p"},
+		"zq_now":   func() string { return "now" },
+		"zq_users": map[string]c12struct{"alice": {A: "a"}},
+		"zq_cfg":   map[string]interface{}{"db": map[string]interface{}{"host": "h"}},
+		"zq_u":     uint(5), "zq_u8": uint8(9), "zq_f": 2.5,
 		"zq_failwrap": func() string { panic(fmt.Errorf("zq_failwrap: lookup failed: %w", c12runtimeError())) },
 		"zq_jfwrap": jet.Func(func(a jet.Arguments) reflect.Value {
 			a.Panicf("zq_jfwrap: %w", c12runtimeError())
